@@ -231,8 +231,8 @@ namespace Givaro {
              typename std::enable_if<! (IS_SINT(TElem)), int>::type = 0>
     inline TElem& GenericAdd(TElem& r, const TElem& a, const TElem& b, const RElem& _p)
     {
-        r = a + b;
-        return (r >= Caster<TElem>(_p) || r < a) ? r -= Caster<TElem>(_p) : r;
+        const TElem rr(static_cast<TElem>(a + b)); // r may be a: the overflow test needs the operand
+        return r = (rr >= Caster<TElem>(_p) || rr < a) ? static_cast<TElem>(rr - Caster<TElem>(_p)) : rr;
     }
 
         // Overflowing signed integrals is undefined
@@ -308,8 +308,9 @@ namespace Givaro {
              typename std::enable_if<! (IS_SINT(TElem)), int>::type = 0>
     inline TElem& GenericAddIN(TElem& r, const TElem& a, const RElem& _p)
     {
-        r += a;
-        return r = (r >= Caster<TElem>(_p) || r < a) ? r - Caster<TElem>(_p) : r;
+        const TElem aa(a); // r may be a: the overflow test needs the operand
+        r += aa;
+        return r = (r >= Caster<TElem>(_p) || r < aa) ? r - Caster<TElem>(_p) : r;
     }
 
         // Addin using unsigned overflows, see comments for add
